@@ -14,7 +14,7 @@ mode `bag`:    `<ranks> | tok tok …`
           obs: what every rank observed during the operation = its vector after each message it executed
                (ranks joined by a slash, snapshots by `;`, items by `,`), from which the interleaving is derived
           `D` dump bags   `K` dump rebalance plan keys (`t=count` per rank)   `g:dest:order`   `a:order`
-          sched/order: `-` = identity, else comma list; ords: `desc` | `asc` | lists joined by `/`; dests: lists joined by `/`
+          sched/order: `-` = identity, `@` + observed vectors = derive, else comma list; ords: `desc` | `asc` | lists joined by `/`; dests: lists joined by `/`
   answer  dumps joined by ` # `; `trap` when an operation fails.
             `tb <ranks> | i:r:x V:t:k E:t D g:t,t,..`   the tagged bag: answers tags / dumps.
 -/
